@@ -40,7 +40,11 @@ func genShortHistory(r *rand.Rand, rs int) []Op {
 	}
 	n := 1 + r.IntN(3)
 	for i := 0; i < n; i++ {
-		switch r.IntN(18) {
+		switch r.IntN(19) {
+		case 18: // Initialize is called again on the live instance while a read stream is open (it catches the
+			// index up through the drive reader that the parked restore of the stream holds)
+			ops = append(ops, Op{K: "open", P: "/a", H: 3}, Op{K: "h.read", H: 3, N: 1 + r.IntN(16)}, Op{K: "reinit"},
+				Op{K: "h.read", H: 3, N: 1 << 16}, Op{K: "h.close", H: 3})
 		case 16, 17: // the instance is opened again, with its index (N=0) or with the index lost (N=1: rebuilt by replaying the tape)
 			ops = append(ops, Op{K: "reopen", N: r.IntN(2)})
 		case 0:
@@ -288,6 +292,9 @@ func runFaultedPost(t *testing.T, c *Case, st *Stats, relax Relax, faults []Faul
 				}
 				stk = nst
 				ex = NewExec(stk.FS, s)
+			case "reinit":
+				_, ierr := stk.FS.Initialize("/", os.ModePerm)
+				failed = ierr != nil
 			case "archive":
 				failed = faultyArchive(stk, op) != nil
 			case "restore":
